@@ -223,6 +223,10 @@ func checkCache(h *History, vs []*opView) {
 	if rs := rp.Cache.Redis; rs != nil && len(rs.DownUs) == 0 && len(rs.FlushUs) == 0 {
 		redisDurable = time.Second + 130*us(rs.LatUs[1])
 	}
+	redisRTT := time.Duration(0)
+	if rs := rp.Cache.Redis; rs != nil {
+		redisRTT = us(rs.LatUs[1])
+	}
 	faultFree := rp.Net.UpDrop == 0 && rp.Net.UpDup == 0 && rp.Net.UpCorrupt == 0 && len(rp.Net.Partitions) == 0 && len(rp.Net.Connect) == 0
 
 	type firstRelay struct {
@@ -297,6 +301,13 @@ func checkCache(h *History, vs []*opView) {
 			return t
 		}
 		return 1 << 62
+	}
+	// redisKept: the answer is in the (fault-free, connected) second level for
+	// sure by the given time
+	// (only when there is no memory level in front: a small one may keep or
+	// drop what it likes)
+	redisKept := func(s *serialRec, by time.Duration) bool {
+		return redisDurable >= 0 && rp.Cache.MemSize == 0 && arrivedBy(s) >= time.Second+redisRTT+100*time.Millisecond+sigma && arrivedBy(s)+redisDurable < by
 	}
 	// storedForSure: an answer that reached the proxy is in the cache, unless
 	// it is a negative one that arrived while a positive entry of the same key
@@ -548,14 +559,16 @@ func checkCache(h *History, vs []*opView) {
 			}
 		}
 		// ---- C19: a hit is answered immediately
-		if lat := d.at - v.o.SentAt; lat > 2*clMax+sigma+200*time.Millisecond {
+		if rs := rp.Cache.Redis; rs != nil && (rs.SlowGetUs[1] > 0 || len(rs.DownUs) > 0) {
+			// a lookup in a slow or silent second level takes what it takes
+		} else if lat := d.at - v.o.SentAt; lat > 2*clMax+sigma+200*time.Millisecond+redisRTT {
 			h.S.Fail("C19", "hit-delayed", "%s: cache hit answered after %v", name, lat)
 		}
 	}
 
 	// ---- C07 converse / C19 refresh: with ample capacity a repeat while more
 	// than 1 s of lifetime remains is not a request-path exchange.
-	if ample && faultFree {
+	if (ample || redisDurable >= 0 && rp.Cache.MemSize == 0) && faultFree {
 		for _, d := range ds {
 			v, m := d.v, d.m
 			op := v.o.Op
@@ -571,6 +584,9 @@ func checkCache(h *History, vs []*opView) {
 			var must *serialRec
 			for _, s := range list {
 				if s.tc || !s.groupKnown || s.group != myGroup || !reached(s, v.o.SentAt) || !storedForSure(list, s) {
+					continue
+				}
+				if !ample && !redisKept(s, v.o.SentAt+clMin) {
 					continue
 				}
 				stored := arrivedBy(s)
@@ -609,7 +625,7 @@ func checkCache(h *History, vs []*opView) {
 			// C19: after a successful positive refresh later hits see the new serial
 			var newest *serialRec
 			for _, s := range list {
-				if s.positive && !s.tc && s.groupKnown && s.group == myGroup && arrivedBy(s) < v.o.SentAt+clMin && reached(s, 1<<62) {
+				if s.positive && !s.tc && s.groupKnown && s.group == myGroup && arrivedBy(s) < v.o.SentAt+clMin && reached(s, 1<<62) && (ample || redisKept(s, v.o.SentAt+clMin)) {
 					if newest == nil || s.reply.At > newest.reply.At {
 						newest = s
 					}
